@@ -708,7 +708,7 @@ pub fn call_cost(c: &Config) -> f64 {
     };
     let per = match c.kind {
         Kind::FastIn | Kind::FastOut => 16.0,
-        Kind::SincIn | Kind::SincOut => c.filt_len() as f64 * [4.0, 3.0, 2.0, 1.0][(c.interp % 4) as usize] * if c.kernel == crate::cfg::Kernel::RangeProbe { 3.0 } else { 1.0 },
+        Kind::SincIn | Kind::SincOut => c.filt_len() as f64 * [4.0, 3.0, 2.0, 1.0][(c.interp % 4) as usize] * if matches!(c.kernel, crate::cfg::Kernel::RangeProbe | crate::cfg::Kernel::OddProbe) { 3.0 } else { 1.0 },
         _ => 60.0,
     };
     (fout * per + (fin + fout) * 8.0 + 200.0) * c.channels as f64
